@@ -45,7 +45,7 @@ structure Problem (α : Type) where
   n : Nat
   lin : Bool
   /-- kernel tag evaluated by `weighted_sum`: 0 linear, 1 a tag the matrix does not come from
-  (no decision values asked), 2 `Polynomial(1, 2)` -/
+  (no decision values asked), 2 `Polynomial(1, 2)`, 3 `Polynomial(1, 1)` -/
   meth : Nat
   X : List (List α)
   /-- query points for `weighted_sum` -/
@@ -71,7 +71,7 @@ def parseProblem (N : Num α) (toks : List String) : Option (Problem α) := do
     | some s => parseList2 parseF64 s
     | none => some []
   let Q ← Q
-  if km > 2 || nu > 1 || meth > 2 then none else
+  if km > 2 || nu > 1 || meth > 3 then none else
   let m := if km == 2 then n / 2 else n
   if km == 2 && n % 2 != 0 then none else
   if K.length != m || X.length != m || y.length != n || p.length != n || b.length != n || a0.length != n then none else
@@ -129,10 +129,12 @@ def handleStep (N : Num α) (toks : List String) : Option String := do
   some ("ok " ++ " ".intercalate outs)
 
 /-- `KernelMethod::distance` for the tags the harness uses with exactly representable data:
-`Linear` is the dot product, `Polynomial(1, 2)` is `(x·q + 1)^2` -/
+`Linear` is the dot product, `Polynomial(1, 2)` is `(x·q + 1)^2`, `Polynomial(1, 1)` is `x·q + 1`
+(a degree-1 polynomial with a constant is **not** `is_linear`: `solve` stores rows, `weighted_sum`
+evaluates the kernel) -/
 def kval (meth : Nat) (x q : List α) : α :=
   let d := dotS x q
-  if meth == 2 then (d + 1) * (d + 1) else d
+  if meth == 2 then (d + 1) * (d + 1) else if meth == 3 then d + 1 else d
 
 /-- `Svm::weighted_sum(q)` on the published model (`+ 0` canonicalises the sign of an empty sum) -/
 def weightedSumAt (N : Num α) (pr : Problem α) (r : Solved α) (q : List α) : α :=
